@@ -441,6 +441,7 @@ fn cmd_batch(args: &[String], sweep_mode: bool) -> i32 {
         "counters": stats.counters,
         "distinct": distinct,
         "failures": failures.len(),
+        "corpus_sites": schema::all_sites().into_iter().collect::<Vec<u32>>(),
         "harness_errors": harness.iter().take(3).map(|(i, h)| json!({"index": i, "error": h})).collect::<Vec<_>>(),
         "replays": replays,
         "samples": samples.values().map(|(_, v)| v.clone()).collect::<Vec<_>>(),
